@@ -224,7 +224,17 @@ func checkString(c strCase) error {
 	}
 	ws := want.Script()
 	if ws == nil {
-		return nil // Base58 version without an output script: OutScript panics by design (callers check the version)
+		// Base58 version without an output script: OutScript refuses (panics) by design, callers check the version
+		// first.  What it must never do is hand back SOME script for such an address: a payment would go astray.
+		var got []byte
+		func() {
+			defer func() { recover() }()
+			got = a.OutScript()
+		}()
+		if got != nil {
+			return fmt.Errorf("string %q (version byte %d) denotes no output script, yet OutScript returns %x", s, want.Version, got)
+		}
+		return nil
 	}
 	out := a.OutScript()
 	if !bytes.Equal(out, ws) {
@@ -311,6 +321,11 @@ func genValidAddr(t *rapid.T) (string, string) {
 		return addr.Base58CheckEncode(append([]byte{v}, h...)), "base58"
 	case 4: // Base58Check, any version byte
 		v := rapid.Byte().Draw(t, "ver")
+		if rapid.IntRange(0, 3).Draw(t, "nearver") == 0 {
+			// version bytes next to the supported ones, and those of other networks the programs know about
+			// (Litecoin: 48 P2PKH, 50 and 5 P2SH, 176 WIF; testnet WIF 239; mainnet WIF 128)
+			v = rapid.SampledFrom([]byte{1, 4, 6, 47, 49, 50, 51, 110, 112, 128, 176, 195, 197, 239, 255}).Draw(t, "ver2")
+		}
 		h := rapid.SliceOfN(rapid.Byte(), 20, 20).Draw(t, "h")
 		return addr.Base58CheckEncode(append([]byte{v}, h...)), "base58_anyver"
 	default: // Base58Check with a payload of another length
